@@ -33,8 +33,16 @@
   * `mode_glue_src_*`              EVERY function of `mode_gamma.py` is re-translated on each run as statement lists / expression trees
                                    (`tools/gens/modegamma_src.py` → `Generated/ModeGammaGlue.lean`; locals α-renamed) and interpreted by
                                    `CijModel/ModeGammaGlue.lean` (Python values, numpy/scipy calls by NAME, the libraries as parameters): the model's
-                                   `interpolateMode` for every method and `interpolateModes` for the double loop ARE that interpretation — all
+                                   `interpolateModeF` for every method and `interpolateModesF` for the double loop ARE that interpretation — all
                                    inputs, any scalar with ANY `ExpLog` pair (no law, no base), any kernels; the inventory is complete.
+                                   Round 5: the model raises what the source raises on malformed inputs (`…F` definitions of
+                                   `CijModel/Interp.lean`: no volume → `ValueError` of `[::0]` for the thinning methods; a volume block without
+                                   q-point j / mode k → `IndexError` at the first missing read in loop order), so the mode and loop theorems carry
+                                   NO hypothesis on the input any more (`mode_glue_src_lagrange_krogh`, `…_ppoly`, `…_loop`,
+                                   `…_one_fit_per_mode`); `mode_glue_src_wellformed`: on well-formed inputs `interpolateModesF` is the
+                                   `interpolateModes` of the other theorems (and of C12 / C13).  The one hypothesis left — the kernel returns one
+                                   sample per evaluation point — is proved for every modelled kernel (`mode_glue_src_kernels`) and remains for the
+                                   FITPACK spline only (`mode_glue_src_loop_std`).
 
   PARTIAL (see the comments at the theorems): FITPACK (`spline`) internals are a parameter (contract measured by the harness).
   Rank-deficient least squares (fewer than order+1 distinct volumes; numpy: minimum-norm solution) is outside the model.
@@ -858,39 +866,54 @@ theorem mode_glue_src_inventory :
 /-- **`interpolate_mode_spline` is the source's.**  For every order, node arrays and grid — in the ORDER GIVEN, nothing is sorted —, every
 spline library (`env.spline k` = `UnivariateSpline(x, y, k=k)` with no `w`, `s`, `ext`): the translated statements
 (`UnivariateSpline(flip(log V), flip(log ω), k=order)`; `interp(log v)`, `interp(log v, nu=1)`, `interp(log v, nu=2)`; `exp`, `−`, `−`)
-evaluate to the model's `interpolateMode .spline`.  The NAME `numpy.log` is interpreted as `ExpLog.log` in all three positions (nodes,
+evaluate to the model's `interpolateModeF .spline`.  The NAME `numpy.log` is interpreted as `ExpLog.log` in all three positions (nodes,
 values, grid) and `numpy.exp` as `ExpLog.exp`, for an arbitrary pair of functions: nothing about the base of the logarithm is assumed, a
-`numpy.log10` anywhere has no interpretation. -/
+`numpy.log10` anywhere has no interpretation.  (No volume: the empty arrays reach the constructor, whose exception — scipy:
+`IndexError` — is the kernel's.) -/
 theorem mode_glue_src_spline (env : Env α) (order : ℕ) (vols freqs va : List α) :
     runFn fns env 2 "interpolate_mode_spline" [.arr vols, .arr freqs, .arr va] [("order", .nat order)]
-      = (Out.ofExcept (interpolateMode .spline order (env.spline order) vols freqs va)).map colsVal :=
+      = (Out.ofExcept (interpolateModeF .spline order (env.spline order) vols freqs va)).map colsVal :=
   spline_is_source env order vols freqs va
 
-/-- **`interpolate_mode_lagrange` / `interpolate_mode_krogh` are the source's** (node arrays of equal length, at least one volume —
-`interpolate_modes` builds both from `qha_input.volumes`): `interval = int(ceil(shape[0] / order))` (order 0: `ZeroDivisionError` in both),
-`[::interval]` on BOTH arrays, both flipped and logged, `scipy.interpolate.lagrange` with `numpy.polyder(poly, m=1|2)` resp.
-`KroghInterpolator` with `.derivative(x, der=1|2)`, `exp` / `−` / `−`. -/
-theorem mode_glue_src_lagrange_krogh (env : Env α) (order : ℕ) (vols freqs va : List α) (hl : vols.length = freqs.length)
-    (hne : vols ≠ []) :
+/-- **`interpolate_mode_lagrange` / `interpolate_mode_krogh` are the source's**, for ALL node arrays (round 5: no hypothesis — not "at
+least one volume", not "equal lengths"): `interval = int(ceil(mode_volumes.shape[0] / order))` (order 0: `ZeroDivisionError` in both),
+`[::interval]` with that ONE interval on BOTH arrays — `ValueError` (slice step cannot be zero) when there is no volume —, both flipped
+and logged, `scipy.interpolate.lagrange` with `numpy.polyder(poly, m=1|2)` resp. `KroghInterpolator` with `.derivative(x, der=1|2)`,
+`exp` / `−` / `−`. -/
+theorem mode_glue_src_lagrange_krogh (env : Env α) (order : ℕ) (vols freqs va : List α) :
     runFn fns env 2 "interpolate_mode_lagrange" [.arr vols, .arr freqs, .arr va] [("order", .nat order)]
-        = (Out.ofExcept (interpolateMode .lagrange order env.lagrange vols freqs va)).map colsVal ∧
+        = (Out.ofExcept (interpolateModeF .lagrange order env.lagrange vols freqs va)).map colsVal ∧
       runFn fns env 2 "interpolate_mode_krogh" [.arr vols, .arr freqs, .arr va] [("order", .nat order)]
-        = (Out.ofExcept (interpolateMode .krogh order env.krogh vols freqs va)).map colsVal :=
-  ⟨lagrange_is_source env order vols freqs va hl hne, krogh_is_source env order vols freqs va hl hne⟩
+        = (Out.ofExcept (interpolateModeF .krogh order env.krogh vols freqs va)).map colsVal :=
+  ⟨lagrange_is_source env order vols freqs va, krogh_is_source env order vols freqs va⟩
 
-/-- **`interpolate_mode_ppoly` is the source's** for its three method strings: the class chosen by the if/elif chain, the 2-argument
-constructor call on the thinned, flipped, logged nodes, the three evaluations with `extrapolate=True` (and `nu=1|2`); `hermite`:
-`CubicHermiteSpline(x, y)` raises `TypeError` after the thinning, whatever the kernel. -/
-theorem mode_glue_src_ppoly (env : Env α) (I : Interpolant α) (order : ℕ) (vols freqs va : List α) (hl : vols.length = freqs.length)
-    (hne : vols ≠ []) :
+/-- **`interpolate_mode_ppoly` is the source's** for its three method strings and ALL node arrays: the thinning as above (`ZeroDivisionError`,
+then `ValueError` for no volume), the class chosen by the if/elif chain, the 2-argument constructor call on the thinned, flipped, logged
+nodes, the three evaluations with `extrapolate=True` (and `nu=1|2`); `hermite`: `CubicHermiteSpline(x, y)` raises `TypeError` AFTER the
+thinning (so no volume is a `ValueError` for `hermite` too), whatever the kernel. -/
+theorem mode_glue_src_ppoly (env : Env α) (I : Interpolant α) (order : ℕ) (vols freqs va : List α) :
     runFn fns env 2 "interpolate_mode_ppoly" [.arr vols, .arr freqs, .arr va] [("method", .str "pchip"), ("order", .nat order)]
-        = (Out.ofExcept (interpolateMode .pchip order env.pchip vols freqs va)).map colsVal ∧
+        = (Out.ofExcept (interpolateModeF .pchip order env.pchip vols freqs va)).map colsVal ∧
       runFn fns env 2 "interpolate_mode_ppoly" [.arr vols, .arr freqs, .arr va] [("method", .str "akima"), ("order", .nat order)]
-        = (Out.ofExcept (interpolateMode .akima order env.akima vols freqs va)).map colsVal ∧
+        = (Out.ofExcept (interpolateModeF .akima order env.akima vols freqs va)).map colsVal ∧
       runFn fns env 2 "interpolate_mode_ppoly" [.arr vols, .arr freqs, .arr va] [("method", .str "hermite"), ("order", .nat order)]
-        = (Out.ofExcept (interpolateMode .hermite order I vols freqs va)).map colsVal :=
-  ⟨pchip_is_source env order vols freqs va hl hne, akima_is_source env order vols freqs va hl hne,
-    hermite_is_source env I order vols freqs va hl hne⟩
+        = (Out.ofExcept (interpolateModeF .hermite order I vols freqs va)).map colsVal :=
+  ⟨pchip_is_source env order vols freqs va, akima_is_source env order vols freqs va, hermite_is_source env I order vols freqs va⟩
+
+/-- the exceptions of the thinning, in the order the source raises them: `order = 0` → `ZeroDivisionError` (whatever the arrays); no
+volume → `ValueError`; and with at least one volume and arrays of equal length `interpolateModeF` is `interpolateMode` -/
+theorem mode_glue_src_thinning_errors (m : Method) (hm : m = .lagrange ∨ m = .krogh ∨ m = .pchip ∨ m = .akima ∨ m = .hermite)
+    (order : ℕ) (I : Interpolant α) (vols freqs va : List α) :
+    interpolateModeF m 0 I vols freqs va = .error .zeroDivision ∧
+      (order ≠ 0 → interpolateModeF m order I [] freqs va = .error .valueError) ∧
+      (vols.length = freqs.length → vols ≠ [] → interpolateModeF m order I vols freqs va = interpolateMode m order I vols freqs va) := by
+  refine ⟨?_, ?_, fun hl hne => interpolateModeF_eq m order I vols freqs va hl hne⟩
+  · rcases hm with rfl | rfl | rfl | rfl | rfl <;> rfl
+  · intro ho
+    have hz : thinInterval 0 order = 0 := by
+      simp only [thinInterval, Nat.zero_add]
+      exact Nat.div_eq_of_lt (by omega)
+    rcases hm with rfl | rfl | rfl | rfl | rfl <;> simp [interpolateModeF, modeNodesF, hz, ho, bind, Except.bind]
 
 /-- **`lstsq_polyfit` is the source's.**  `order += 1`; the matrix handed to `numpy.linalg.lstsq` is `numpy.vander(xs, order + 1)` — the
 model's `vander`: `order + 1` columns, DECREASING powers `[x^order, …, x, 1]` — with the 1-d right-hand side `ys` of the ONE call;
@@ -902,60 +925,97 @@ theorem mode_glue_src_lstsq_polyfit (env : Env α) (fuel order : ℕ) (xs ys new
 
 /-- **`interpolate_mode_lsq_poly` is the source's**: all volumes in file order (no thinning, no flip), `log` of nodes, values and grid,
 one `lstsq_polyfit` call with `order=order`, `exp` of the fitted values, `−polyval(polyder(p, 1))`, `−polyval(polyder(p, 2))` — the
-model's `interpolateMode .lsqPoly` run with the least-squares kernel over the SAME solver (`lsqKernel`: `vander(x, order + 1)`,
+model's `interpolateModeF .lsqPoly` run with the least-squares kernel over the SAME solver (`lsqKernel`: `vander(x, order + 1)`,
 1-d right-hand side).  No cap on the number of coefficients, no centring. -/
 theorem mode_glue_src_lsq_poly (env : Env α) (order : ℕ) (vols freqs va : List α) :
     runFn fns env 2 "interpolate_mode_lsq_poly" [.arr vols, .arr freqs, .arr va] [("order", .nat order)]
-      = (Out.ofExcept (interpolateMode .lsqPoly order (lsqKernel env.lstsq order) vols freqs va)).map colsVal :=
+      = (Out.ofExcept (interpolateModeF .lsqPoly order (lsqKernel env.lstsq order) vols freqs va)).map colsVal :=
   lsq_poly_is_source env order vols freqs va
 
 /-- … and with a solver that returns on Vandermonde systems what the model's exact solver returns (the contract of
 `numpy.linalg.lstsq`; `lstsqPolyfit` IS the least-squares polynomial by `lsq_minimises` / `lsq_total`) that kernel is the model's
-`lsqInterpolant`, and the libraries of `stdEnv` give every method exactly the kernel `kernelFull` names -/
+`lsqInterpolant` (with the zero solution of the system with no rows — no volume —: `lsqInterpolantF`), and the libraries of `stdEnv`
+give every method exactly the kernel `kernelFull` names.
+**Hypothesis (iii) discharged for the modelled kernels**: the Newton-form polynomial kernel (`lagrange`, `krogh`), the least-squares
+kernel over ANY solver, `lsqInterpolantF`, and the modelled scipy classes `PchipInterpolator` / `Akima1DInterpolator`
+(`CijModel/PPoly.lean`) each return exactly one sample per evaluation point; so with `stdEnv` the loop's kernel contract is a
+hypothesis for the FITPACK spline only. -/
 theorem mode_glue_src_kernels {β : Type} [Add β] [Sub β] [Mul β] [Div β] [Neg β] [Zero β] [One β] [NatCast β] [BEq β] [LT β]
     [DecidableLT β] [LE β] [DecidableLE β] [ExpLog β] (lib : Interpolant β) (S : List (List β) → List β → Except Err (List β))
-    (hS : SolvesVander S) (m : Method) (order : ℕ) :
-    lsqKernel S order = lsqInterpolant order ∧ (stdEnv lib S).kernelFor m order = Cij.PPoly.kernelFull m order lib ∧
-      (LenOK lib → LenOK ((stdEnv lib S).kernelFor m order)) :=
-  ⟨lsqKernel_model S hS order, stdEnv_kernelFor lib S hS m order, fun h => stdEnv_lenOK lib h S m order⟩
+    (m : Method) (order : ℕ) :
+    (SolvesVander S → lsqKernel S order = lsqInterpolant order ∧
+        (stdEnv lib S).kernelFor m order = Cij.PPoly.kernelFull m order lib) ∧
+      (SolvesVanderF S → lsqKernel S order = lsqInterpolantF order) ∧
+      (LenOK (newtonInterpolant : Interpolant β) ∧ LenOK (lsqKernel S order) ∧ LenOK (lsqInterpolantF order : Interpolant β) ∧
+        LenOK (Cij.PPoly.pchipInterpolant : Interpolant β) ∧ LenOK (Cij.PPoly.akimaInterpolant : Interpolant β)) ∧
+      ((m = .spline → LenOK lib) → LenFor m ((stdEnv lib S).kernelFor m order)) :=
+  ⟨fun hS => ⟨lsqKernel_model S hS order, stdEnv_kernelFor lib S hS m order⟩, fun hS => lsqKernel_modelF S hS order,
+    ⟨lenOK_newton, lenOK_lsqKernel S order, lenOK_lsqInterpolantF order, lenOK_hermite _, lenOK_hermite _⟩,
+    fun h => stdEnv_lenFor lib S m order h⟩
 
-/-- **`interpolate_modes` is the source's.**  For every method string `s` (the seven of the dispatch table, or any other: no branch,
-zero arrays), every order, every input with at least one volume whose volumes carry the `nq × np` frequencies the header announces,
-every library returning one sample per evaluation point: the interpretation of the translated function — `nq`, `np` from the header,
-`ntv = v_array.shape[0]`; three `numpy.zeros((ntv, nq, np))`; `mode_volumes` from `qha_input.volumes`; `for j in range(nq): for k in
-range(np):` with the single skip `j == 0 and k in range(3)`; `mode_freqs` = `[volume.q_points[j].modes[k] for volume in …]`; the
-method → function dispatch with `order=order` (and `method=method` for the ppoly branch); targets `[:, j, k]` of the three arrays in
-the order of the returned triple; `return` in that order — IS the model's `interpolateModes` (same arrays, same first exception in
-loop order). -/
+/-- **`interpolate_modes` is the source's — for EVERY input** (round 5: hypotheses (i) "at least one volume" and (ii) "every block carries
+the header's nq × np frequencies" are gone; the model raises what the source raises).  For every method string `s` (the seven of the
+dispatch table, or any other: no branch, zero arrays), every order, every list of volume blocks of whatever shapes, every library whose
+kernel — where one is called — returns one sample per evaluation point: the interpretation of the translated function — `nq`, `np` from
+the header, `ntv = v_array.shape[0]`; three `numpy.zeros((ntv, nq, np))`; `mode_volumes` from `qha_input.volumes`; `for j in range(nq):
+for k in range(np):` with the single skip `j == 0 and k in range(3)` BEFORE anything is read; `mode_freqs` =
+`[volume.q_points[j].modes[k] for volume in …]` — `IndexError` at the first volume (file order) of the first `(j, k)` (loop order)
+that lacks the entry, also for a method outside the table —; the method → function dispatch with `order=order` (and `method=method` for
+the ppoly branch) — no volume: `ValueError` of `[::0]` for the five thinning methods —; targets `[:, j, k]` of the three arrays in the order
+of the returned triple; `return` in that order — IS the model's `interpolateModesF` (same arrays, same first exception in loop order). -/
 theorem mode_glue_src_loop (env : Env α) (s : String) (order nv nq np : ℕ) (volumes : List (α × List (List α))) (va : List α)
-    (hne : volumes ≠ []) (hshape : Shaped volumes nq np) (hI : LenOK (env.kernelFor (Method.ofString s) order)) :
+    (hI : LenFor (Method.ofString s) (env.kernelFor (Method.ofString s) order)) :
     loop.run fns env [.qha nv nq np volumes, .arr va, .str s, .nat order]
-      = (Out.ofExcept (interpolateModes (Method.ofString s) order (env.kernelFor (Method.ofString s) order)
+      = (Out.ofExcept (interpolateModesF (Method.ofString s) order (env.kernelFor (Method.ofString s) order)
             (volumes.map (·.1)) va nq np (volumes.map (·.2)))).map fun r => [r.1, r.2.1, r.2.2] :=
-  loop_is_source env s order nv nq np volumes va hne hshape hI
+  loop_is_source env s order nv nq np volumes va hI
 
-/-- **one independent fit per mode, indexed (v, q, m).**  Whenever the translated `interpolate_modes` returns `[F, G, D]`: at every grid
-index `t`, q-point `j`, mode `k`
-* Γ-acoustic (`j = 0`, `k < 3`): the three entries are exactly `0`;
-* otherwise (a method of the table): they are the `t`-th sample of the fit of `interpolateMode` on THAT mode's own series
-  `[volume.q_points[j].modes[k] for volume in volumes]` and the node volumes — nothing of any other mode enters, nothing is reused
-  between modes (the kernel is called afresh on these arguments). -/
+/-- … with the libraries as the model has them (`stdEnv`) the ONLY hypothesis left is the contract of the FITPACK spline, and only when
+the method is `spline` -/
+theorem mode_glue_src_loop_std {β : Type} [Add β] [Sub β] [Mul β] [Div β] [Neg β] [Zero β] [One β] [NatCast β] [BEq β] [LT β]
+    [DecidableLT β] [LE β] [DecidableLE β] [ExpLog β] (lib : Interpolant β) (S : List (List β) → List β → Except Err (List β))
+    (s : String) (order nv nq np : ℕ) (volumes : List (β × List (List β))) (va : List β)
+    (hlib : Method.ofString s = .spline → LenOK lib) :
+    loop.run fns (stdEnv lib S) [.qha nv nq np volumes, .arr va, .str s, .nat order]
+      = (Out.ofExcept (interpolateModesF (Method.ofString s) order ((stdEnv lib S).kernelFor (Method.ofString s) order)
+            (volumes.map (·.1)) va nq np (volumes.map (·.2)))).map fun r => [r.1, r.2.1, r.2.2] :=
+  loop_is_source (stdEnv lib S) s order nv nq np volumes va (stdEnv_lenFor lib S _ order hlib)
+
+/-- **the faithful model on well-formed inputs is the model of the other theorems**: with at least one volume and every block carrying
+the `nq × np` frequencies of the header, `interpolateModesF` is `interpolateModes` (about which `triple_consistent`, the exactness
+theorems, C12 and C13 are stated); and a series that can be read is `series` -/
+theorem mode_glue_src_wellformed (m : Method) (order : ℕ) (I : Interpolant α) (va : List α) (nq np : ℕ)
+    (volumes : List (α × List (List α))) (hne : volumes ≠ []) (hshape : Shaped volumes nq np) :
+    interpolateModesF m order I (volumes.map (·.1)) va nq np (volumes.map (·.2))
+        = interpolateModes m order I (volumes.map (·.1)) va nq np (volumes.map (·.2)) ∧
+      ∀ j k ser, seriesE (volumes.map (·.2)) j k = .ok ser → ser = series (volumes.map (·.2)) j k :=
+  ⟨interpolateModesF_eq m order I va nq np volumes hne hshape, fun j k ser h => seriesE_ok _ j k ser h⟩
+
+/-- **one independent fit per mode, indexed (v, q, m)** — for every input.  Whenever the translated `interpolate_modes` returns
+`[F, G, D]`: at every grid index `t`, q-point `j`, mode `k`
+* Γ-acoustic (`j = 0`, `k < 3`): the three entries are exactly `0` (whether or not the input carries those frequencies);
+* otherwise: EVERY volume block carries the frequency `(j, k)` — the series `[volume.q_points[j].modes[k] for volume in volumes]` was
+  read without `IndexError` — and (a method of the table) the entries are the `t`-th sample of the fit of `interpolateModeF` on THAT
+  mode's own series and the node volumes — nothing of any other mode enters, nothing is reused between modes (the kernel is called
+  afresh on these arguments). -/
 theorem mode_glue_src_one_fit_per_mode (env : Env α) (s : String) (order nv nq np : ℕ) (volumes : List (α × List (List α)))
-    (va : List α) (hne : volumes ≠ []) (hshape : Shaped volumes nq np) (hI : LenOK (env.kernelFor (Method.ofString s) order))
+    (va : List α) (hI : LenFor (Method.ofString s) (env.kernelFor (Method.ofString s) order))
     (F G D : List (List (List α)))
     (h : loop.run fns env [.qha nv nq np volumes, .arr va, .str s, .nat order] = .ok [F, G, D])
     (t j k : ℕ) (ht : t < va.length) (hj : j < nq) (hk : k < np) :
     (j = 0 ∧ k < 3 → entry F t j k = some 0 ∧ entry G t j k = some 0 ∧ entry D t j k = some 0) ∧
-      (¬(j = 0 ∧ k < 3) → Method.ofString s ≠ .unknown →
-        ∃ col, interpolateMode (Method.ofString s) order (env.kernelFor (Method.ofString s) order) (volumes.map (·.1))
-            (volumes.map fun vl => (vl.2.getD j []).getD k 0) va = .ok col ∧
-          entry F t j k = some (col.getD t (0, 0, 0)).1 ∧ entry G t j k = some (col.getD t (0, 0, 0)).2.1 ∧
-          entry D t j k = some (col.getD t (0, 0, 0)).2.2) := by
-  rw [loop_is_source env s order nv nq np volumes va hne hshape hI] at h
-  have hm : interpolateModes (Method.ofString s) order (env.kernelFor (Method.ofString s) order) (volumes.map (·.1)) va nq np
-      (volumes.map (·.2)) = .ok (F, G, D) := by
-    cases hx : interpolateModes (Method.ofString s) order (env.kernelFor (Method.ofString s) order) (volumes.map (·.1)) va nq np
-        (volumes.map (·.2)) with
+      (¬(j = 0 ∧ k < 3) →
+        seriesE (volumes.map (·.2)) j k = .ok (volumes.map fun vl => (vl.2.getD j []).getD k 0) ∧
+        (Method.ofString s ≠ .unknown →
+          ∃ col, interpolateModeF (Method.ofString s) order (env.kernelFor (Method.ofString s) order) (volumes.map (·.1))
+              (volumes.map fun vl => (vl.2.getD j []).getD k 0) va = .ok col ∧
+            entry F t j k = some (col.getD t (0, 0, 0)).1 ∧ entry G t j k = some (col.getD t (0, 0, 0)).2.1 ∧
+            entry D t j k = some (col.getD t (0, 0, 0)).2.2)) := by
+  rw [loop_is_source env s order nv nq np volumes va hI, interpolateModesF_eq_modesOf] at h
+  have hm : modesOf (cellF (Method.ofString s) order (env.kernelFor (Method.ofString s) order) (volumes.map (·.1)) va
+      (volumes.map (·.2))) va nq np = .ok (F, G, D) := by
+    cases hx : modesOf (cellF (Method.ofString s) order (env.kernelFor (Method.ofString s) order) (volumes.map (·.1)) va
+        (volumes.map (·.2))) va nq np with
     | error e => rw [hx] at h; simp [Out.ofExcept, Out.map] at h
     | ok r =>
       rw [hx] at h
@@ -963,26 +1023,34 @@ theorem mode_glue_src_one_fit_per_mode (env : Env α) (s : String) (order nv nq 
       simp only [Out.ofExcept, Out.map, bind_ok, Out.ok.injEq, List.cons.injEq, and_true] at h
       obtain ⟨rfl, rfl, rfl⟩ := h
       rfl
-  obtain ⟨col, hcol, e1, e2, e3⟩ := modes_cell _ order _ _ va nq np _ F G D hm t j k ht hj hk
+  obtain ⟨col, hcol, e1, e2, e3⟩ := modesOf_cell _ va nq np F G D hm t j k ht hj hk
   have hser : series (volumes.map (·.2)) j k = volumes.map fun vl => (vl.2.getD j []).getD k 0 := by
     simp [series, List.map_map, Function.comp_def]
   constructor
   · rintro ⟨rfl, hk3⟩
     have hcond : ((0 : ℕ) == 0 && decide (k < 3)) = true := by simp [hk3]
     have : col = va.map fun _ => ((0 : α), (0 : α), (0 : α)) := by
-      rw [cell, if_pos hcond] at hcol
+      rw [cellF, if_pos hcond] at hcol
       exact (Except.ok.inj hcol).symm
     subst this
     simp only [List.getD_eq_getElem?_getD, List.getElem?_map, List.getElem?_eq_getElem ht, Option.map_some,
       Option.getD_some] at e1 e2 e3
     exact ⟨e1, e2, e3⟩
-  · intro hs hmu
-    refine ⟨col, ?_, e1, e2, e3⟩
+  · intro hs
     have hcond : (j == 0 && decide (k < 3)) = false := by
       simpa using hs
-    have hmu' : (Method.ofString s == Method.unknown) = false := by simpa using hmu
-    rw [cell, hcond, hmu', hser] at hcol
-    simpa using hcol
+    rw [cellF, hcond] at hcol
+    simp only [Bool.false_eq_true, if_false] at hcol
+    cases hse : seriesE (volumes.map (·.2)) j k with
+    | error e => rw [hse] at hcol; cases hcol
+    | ok ser =>
+      have hser' : ser = volumes.map fun vl => (vl.2.getD j []).getD k 0 := by
+        rw [← hser]; exact seriesE_ok _ j k ser hse
+      subst hser'
+      refine ⟨rfl, fun hmu => ⟨col, ?_, e1, e2, e3⟩⟩
+      have hmu' : (Method.ofString s == Method.unknown) = false := by simpa using hmu
+      rw [hse] at hcol
+      simpa [hmu'] using hcol
 
 /-- non-vacuity of `mode_glue_src_loop` / `…_one_fit_per_mode`: a well-shaped input (three volumes, one q-point, four modes), and the
 translated loop RUN on it (scalar ℚ with exp = log = id, `lsq_poly` of order 1 with the exact solver on the abscissae read back from
@@ -1003,6 +1071,35 @@ example : Shaped [((1 : ℚ), [[7, 7, 7, 1]]), (2, [[8, 8, 8, 3]]), (3, [[9, 9, 
   simp only [List.mem_cons, List.not_mem_nil, or_false] at hvl
   have hk4 : k = 0 ∨ k = 1 ∨ k = 2 ∨ k = 3 := by omega
   rcases hvl with rfl | rfl | rfl <;> rcases hk4 with rfl | rfl | rfl | rfl <;> simp
+
+/-- the malformed inputs, RUN through the translated loop (ℚ, exp = log = id, the libraries of `stdEnv`) and through the model:
+(`runQ`, Lemmas/ModeGammaGlueSource.lean: the q-point count of the header is 1, the grid `[4]`)
+* no volume: `ValueError` for `lagrange` / `pchip` / `hermite` (the `[::0]` slice; `hermite` never reaches its `TypeError`),
+  `ZeroDivisionError` for order 0, three zero arrays for a method outside the table, and for `spline` whatever the constructor raises
+  on empty arrays (here the stand-in library's `ValueError`; scipy: `IndexError`, compared by the harness);
+* the second volume lacks the fourth mode of Γ: `IndexError`, also for a method outside the table — but a block that lacks only
+  Γ-ACOUSTIC entries is not noticed (those are skipped before anything is read). -/
+example :
+    runQ [] 4 "lagrange" 3 = .raise .valueError ∧ runQ [] 4 "pchip" 3 = .raise .valueError ∧
+      runQ [] 4 "hermite" 3 = .raise .valueError ∧ runQ [] 4 "krogh" 0 = .raise .zeroDivision ∧
+      runQ [] 4 "nosuchmethod" 3 = .ok [[[[0, 0, 0, 0]]], [[[0, 0, 0, 0]]], [[[0, 0, 0, 0]]]] ∧
+      runQ [] 4 "spline" 3 = .raise .valueError ∧
+      runQ [(1, [[7, 7, 7, 1]]), (2, [[8, 8, 8]]), (3, [[9, 9, 9, 5]])] 4 "lagrange" 2 = .raise indexError ∧
+      runQ [(1, [[7, 7, 7, 1]]), (2, [[8, 8, 8]]), (3, [[9, 9, 9, 5]])] 4 "nosuchmethod" 2 = .raise indexError ∧
+      runQ [(1, [[7]]), (2, [[]]), (3, [[9, 9]])] 3 "lagrange" 2 = .ok [[[[0, 0, 0]]], [[[0, 0, 0]]], [[[0, 0, 0]]]] := by
+  refine ⟨?_, ?_, ?_, ?_, ?_, ?_, ?_, ?_, ?_⟩ <;> decide +kernel
+
+example :
+    letI : ExpLog ℚ := ⟨id, id⟩
+    (interpolateModesF (α := ℚ) .lagrange 3 newtonInterpolant [] [4] 1 4 [] = .error .valueError ∧
+      interpolateModesF (α := ℚ) .lagrange 2 newtonInterpolant [1, 2, 3] [4] 1 4 [[[7, 7, 7, 1]], [[8, 8, 8]], [[9, 9, 9, 5]]]
+        = .error indexError ∧
+      -- where the total model of the earlier rounds answers with a default: an interpolation through the made-up value 0
+      (interpolateModes (α := ℚ) .lagrange 2 newtonInterpolant [1, 2, 3] [4] 1 4 [[[7, 7, 7, 1]], [[8, 8, 8]], [[9, 9, 9, 5]]]).toBool
+        = true ∧
+      -- no volume, least squares: numpy's zero solution, no exception (ω = exp 0, γ = −0, V∂γ/∂V = −0)
+      interpolateModesF (α := ℚ) .lsqPoly 2 (lsqInterpolantF 2) [] [4] 1 4 [] = .ok ([[[0, 0, 0, 0]]], [[[0, 0, 0, 0]]], [[[0, 0, 0, 0]]])) :=
+  ⟨by decide +kernel, by decide +kernel, by decide +kernel, by decide +kernel⟩
 
 /-- a decimal logarithm or a sorted grid has NO interpretation: an expression the semantics does not know is `stuck`, never a default -/
 example :
